@@ -736,6 +736,10 @@ def run(ctx: core.Context) -> int:
         for name in ('top', 'long'):
             if name in ctx.subs:
                 ctx.log(f'{name}:', ctx.sub(name).summary())
+    if not only or 'wrap' in only:
+        for r in core.pmap(w_wrap, [[c] for c in wrap_cases(quick)], ctx.jobs):
+            ctx.sub('wrap').merge(r)
+        ctx.log('wrap:', ctx.sub('wrap').summary())
     if not only or 'crossed' in only:
         for r in core.pmap(w_crossed, core.split(crossed_cases(quick), ctx.jobs), ctx.jobs):
             ctx.sub('crossed').merge(r)
@@ -785,6 +789,8 @@ def replay(v: core.Violation):
         res = run_long(c['long'])
     elif 'crossed' in c:
         res = run_crossed(c['crossed'])
+    elif 'wrap' in c:
+        res = run_wrap(c['wrap'])
     elif 'prefix' in c:
         res = run_case(c['params'], prefix=c['prefix'], fp=None)
     else:
@@ -876,4 +882,52 @@ def w_crossed(cases):
             st.count('runs_with_crossed_identifiers')
         for check, sg, msg in r['viol']:
             st.violation(check, sg, msg, {'crossed': case})
+    return st
+
+
+# ---------------------------------------------------------------------------
+# many credit returns: a receiver with 1 or 2 credits sends a Flow Control Credit packet for (nearly) every frame, so a
+# transfer of several hundred frames makes the signalling identifier of the connection wrap (1..255) more than once
+# ---------------------------------------------------------------------------
+def wrap_cases(quick):
+    return [{'kind': k, 'credits': c, 'frames': n} for k in ('coc', 'enhanced') for c in (1, 2) for n in ((300, 700) if quick else (300, 700, 1500))]
+
+
+def run_wrap(case):
+    viol = []
+    sig = {'kind': 'le_coc' if case['kind'] == 'coc' else 'enhanced', 'phase': 'many_credit_returns', 'credits': case['credits']}
+    t = (64, 32, case['credits'])
+    with open_pair(case['kind'], t, t, 251) as p:
+        w = p['w']
+        got = [bytearray(), bytearray()]
+        p['chans'][0].sink = got[1].__iadd__
+        p['chans'][1].sink = got[0].__iadd__
+        blobs = [stream_bytes(s_, 30 * case['frames']) for s_ in (0, 1)]
+        for s_ in (0, 1):
+            for i in range(case['frames']):
+                p['chans'][s_].write(blobs[s_][30 * i : 30 * i + 30])
+        w.loop.run_quiescent(max_steps=20000000)
+        drains = [w.loop.create_task(p['chans'][s_].drain()) for s_ in (0, 1)]
+        w.loop.run_quiescent(max_steps=200000)
+        for s_ in (0, 1):
+            lsig = dict(sig, dir='c2s' if s_ == 0 else 's2c')
+            if bytes(got[s_]) != blobs[s_]:
+                what = 'transfer_incomplete' if blobs[s_].startswith(bytes(got[s_])) else 'stream_differs'
+                viol.append(('wrap_stream', dict(lsig, what=what), f'{case}: {len(got[s_])} of {len(blobs[s_])} bytes arrived ({len(got[s_]) // 30} frames of {case["frames"]})'))
+            elif not drains[s_].done():
+                viol.append(('wrap_stream', dict(lsig, what='drain_pending'), f'{case}: everything arrived but drain() never completed'))
+        for check, sg, msg in p['mon'].problems:
+            viol.append((check, dict(sig, **sg), msg))
+        for msg, exc in w.loop.collect_exceptions():
+            viol.append(('exception', dict(sig, what='exception', exc=exc.split('(')[0]), f'{msg}: {exc}'))
+    return {'viol': viol}
+
+
+def w_wrap(cases):
+    st = core.Stats('wrap')
+    for case in cases:
+        r = run_wrap(case)
+        st.case(case, sample={'case': case})
+        for check, sg, msg in r['viol']:
+            st.violation(check, sg, msg, {'wrap': case})
     return st
